@@ -6,11 +6,14 @@
    Selections are records [k, sel, name, dir]:
      k = "leaf" (field a) | "obj" (field o with sub-selection) | "inline" (inline fragment) | "spread" (named fragment)
      dir = "" | "skipT" (@skip(if: true)) | "inclV" (@include(if: $v)) | "skipV" (@skip(if: $v))
+           | "sFiF" (@skip(if: false) @include(if: false): BOTH directives, a selection is kept only if neither removes it)
+           | "iTsF" (@include(if: true) @skip(if: false): kept)
    Fragment library (fixed, defined in every document):
      fragment F on O { o { a } }      fragment G on O { a }      fragment H on O { o { ...F } }
    Reference (DESIGN Appendix B.13): depth = maximal number of nested FIELD selection sets below the operation's own
    selection set; fragments add no level; selections disabled by @skip/@include do not count.
-   The document has two operations: the built one (named A) and a fixed one  query B { o { o { a } } }  (depth 2). *)
+   The document has two operations: the built one (named A) and a fixed one  query B { ...H }  (depth 2: it shares its
+   fragments with A, measuring one operation must not change what the other one measures). *)
 EXTENDS Naturals, Sequences, FiniteSets, TLC, Json, SequencesExt
 CONSTANTS MaxSteps, UseDirs
 VARIABLES stack, kinds, dirs, steps, done, v, filter
@@ -18,7 +21,7 @@ vars == <<stack, kinds, dirs, steps, done, v, filter>>
 
 Sel(kind, sel, name, dir) == [k |-> kind, sel |-> sel, name |-> name, dir |-> dir]
 Leaf == Sel("leaf", <<>>, "", "")
-Dirs == IF UseDirs THEN {"", "skipT", "inclV", "skipV"} ELSE {""}
+Dirs == IF UseDirs THEN {"", "skipT", "inclV", "skipV", "sFiF", "iTsF"} ELSE {""}
 
 Init == /\ stack = << <<>> >> /\ kinds = <<"root">> /\ dirs = <<"">> /\ steps = 0 /\ done = FALSE
         /\ v \in (IF UseDirs THEN BOOLEAN ELSE {TRUE}) /\ filter \in {"", "A", "B"}
@@ -44,7 +47,7 @@ Spec == Init /\ [][Next]_vars
 FragSel(n) == CASE n = "F" -> <<Sel("obj", <<Leaf>>, "", "")>>
                 [] n = "G" -> <<Leaf>>
                 [] n = "H" -> <<Sel("obj", <<Sel("spread", <<>>, "F", "")>>, "", "")>>
-Enabled(s, var) == CASE s.dir = "skipT" -> FALSE
+Enabled(s, var) == CASE s.dir \in {"skipT", "sFiF"} -> FALSE
                      [] s.dir = "inclV" -> var
                      [] s.dir = "skipV" -> ~var
                      [] OTHER -> TRUE
